@@ -929,6 +929,7 @@ class Server:
             response=lambda *args: response_queue.put_nowait(args),
             acquired=False,
             restart_offset=0,
+            transfer_offset=0,
             _dispatcher=get_current_task(),
         )
         connection.path_io = self.path_io_factory(
@@ -966,12 +967,14 @@ class Server:
                         )
                         cmd, rest = result
                         f = self.commands_mapping.get(cmd)
+                        # REST applies to the immediately following transfer only
+                        if cmd in ("retr", "stor", "appe"):
+                            connection.transfer_offset = connection.restart_offset
+                        connection.restart_offset = 0
                         if f is not None:
                             pending.add(
                                 asyncio.create_task(f(connection, rest)),
                             )
-                            if cmd not in ("retr", "stor", "appe"):
-                                connection.restart_offset = 0
                         else:
                             message = f"{cmd!r} not implemented"
                             connection.response("502", message)
@@ -1329,14 +1332,14 @@ class Server:
         async def stor_worker(self, connection, rest):
             stream = connection.data_connection
             del connection.data_connection
-            if connection.restart_offset:
+            if connection.transfer_offset:
                 file_mode = "r+b"
             else:
                 file_mode = mode
             file_out = connection.path_io.open(real_path, mode=file_mode)
             async with stream, file_out:
-                if connection.restart_offset:
-                    await file_out.seek(connection.restart_offset)
+                if connection.transfer_offset:
+                    await file_out.seek(connection.transfer_offset)
                 async for data in stream.iter_by_block(connection.block_size):
                     await file_out.write(data)
             connection.response("226", "data transfer done")
@@ -1375,8 +1378,8 @@ class Server:
             del connection.data_connection
             file_in = connection.path_io.open(real_path, mode="rb")
             async with stream, file_in:
-                if connection.restart_offset:
-                    await file_in.seek(connection.restart_offset)
+                if connection.transfer_offset:
+                    await file_in.seek(connection.transfer_offset)
                 async for data in file_in.iter_by_block(connection.block_size):
                     await stream.write(data)
             connection.response("226", "data transfer done")
